@@ -248,6 +248,12 @@ def run_interrupt_part(ctx):
             a += ["--pct", str(rng.choice([1, 2, 3])), "--pct-len", "60"]
         runs.append(a)
     check_interrupt_runs(ctx, binary, runs, "intrandom")
+    # systematically: every schedule with at most 2 (thorough: 3) preemptions of small interrupt scenarios
+    runs = []
+    for cfg in (["runs=1", "ints=1", "pre=0"], ["runs=2", "ints=2", "pre=0"], ["runs=2", "ints=1", "pre=1"], ["runs=1", "ints=2", "pre=0", "timers=2"]):
+        runs += vlib.preemption_bounded_schedules(binary, cfg + ["--seed", "1", "--spur", "0"], bound=2 if ctx.quick else 3, cap=300 if ctx.quick else 5000)
+    ctx.notes["preemption_bounded_interrupt_schedules"] = len(runs)
+    check_interrupt_runs(ctx, binary, runs, "intpb")
 
 
 def run(ctx):
